@@ -70,6 +70,37 @@ theorem fieldOf_ptr (m : Mem) (a k : Nat) (o : TIIR.Obj) (x : TIIR.Val) (ho : m.
 
 attribute [cir] eval evalArgs lookup storeAll store ofTI
 
+/-! `ext1M`/`ext2M` on values that are not references into the memory are the pure operations. -/
+section ext1M
+variable (m : Mem) (op : Ext1)
+@[cir] theorem ext1M_rv (t : RType) (g : GVal) (ro : Bool) : ext1M m op (.rv t g ro) = ext1 op (.rv t g ro) := rfl
+@[cir] theorem ext1M_rvInvalid : ext1M m op .rvInvalid = ext1 op .rvInvalid := rfl
+@[cir] theorem ext1M_rtype (t : RType) : ext1M m op (.rtype t) = ext1 op (.rtype t) := rfl
+@[cir] theorem ext1M_iface (t : RType) (g : GVal) : ext1M m op (.iface t g) = ext1 op (.iface t g) := rfl
+@[cir] theorem ext1M_nil : ext1M m op .nil = ext1 op .nil := rfl
+@[cir] theorem ext1M_int (i : Int) : ext1M m op (.int i) = ext1 op (.int i) := rfl
+@[cir] theorem ext1M_str (b : Bytes) : ext1M m op (.str b) = ext1 op (.str b) := rfl
+@[cir] theorem ext1M_bytes (b : Bytes) : ext1M m op (.bytes b) = ext1 op (.bytes b) := rfl
+@[cir] theorem ext1M_builder (b : Bytes) : ext1M m op (.builder b) = ext1 op (.builder b) := rfl
+@[cir] theorem ext1M_textErr (d : String) : ext1M m op (.textErr d) = ext1 op (.textErr d) := rfl
+@[cir] theorem ext1M_numErr (r : Bool) : ext1M m op (.numErr r) = ext1 op (.numErr r) := rfl
+@[cir] theorem ext1M_dptr (t : RType) : ext1M m op (.dptr t) = ext1 op (.dptr t) := rfl
+@[cir] theorem ext1M_root (t : RType) : ext1M m op (.root t) = ext1 op (.root t) := rfl
+end ext1M
+section ext2M
+variable (c : Ctx) (m : Mem) (op : Ext2) (b : Val)
+@[cir] theorem ext2M_rv (t : RType) (g : GVal) (ro : Bool) : ext2M c m op (.rv t g ro) b = ext2 c op (.rv t g ro) b := by
+  cases op <;> rfl
+@[cir] theorem ext2M_rtype (t : RType) : ext2M c m op (.rtype t) b = ext2 c op (.rtype t) b := by cases op <;> rfl
+@[cir] theorem ext2M_global (g : String) : ext2M c m op (.global g) b = ext2 c op (.global g) b := by cases op <;> rfl
+@[cir] theorem ext2M_int (i : Int) : ext2M c m op (.int i) b = ext2 c op (.int i) b := by cases op <;> rfl
+@[cir] theorem ext2M_str (s : Bytes) : ext2M c m op (.str s) b = ext2 c op (.str s) b := by cases op <;> rfl
+end ext2M
+@[cir] theorem concatVal_str_str (a b : Bytes) : concatVal (.str a) (.str b) = .ok (.str (a ++ b)) := rfl
+@[cir] theorem concatVal_str_msg (a : Bytes) (p : List MsgPart) : concatVal (.str a) (.msg p) = .ok (.msg (.lit a :: p)) := rfl
+@[cir] theorem concatVal_msg_str (p : List MsgPart) (a : Bytes) : concatVal (.msg p) (.str a) = .ok (.msg (p ++ [.lit a])) := rfl
+@[cir] theorem concatVal_msg_msg (p q : List MsgPart) : concatVal (.msg p) (.msg q) = .ok (.msg (p ++ q)) := rfl
+
 section ext
 @[cir] theorem ext1_typeKind (t : RType) : ext1 .typeKind (.rtype t) = .ok (.int (kindNum t)) := id rfl
 @[cir] theorem ext1_typeString (t : RType) : ext1 .typeString (.rtype t) = .ok (.msg [.typeStr t]) := id rfl
